@@ -112,6 +112,7 @@ type ambient struct {
 	rrNext    int
 	fspin     int
 	pYield    float64
+	pDrain    float64 // per run: probability that children run to rest when a call of the harness goroutine has returned
 
 	spawned  int64
 	switches int64
@@ -173,6 +174,7 @@ func ambReset(seed uint64) {
 	// a Sim adopts them (a background goroutine that outlives the call which
 	// started it is the interesting case)
 	amb.pYield = []float64{0, 0, 1.0 / 4, 1.0 / 32, 1.0 / 256}[amb.rng.Intn(5)]
+	amb.pDrain = []float64{0, 0, 1.0 / 4, 1.0 / 32}[amb.rng.Intn(4)]
 	amb.spawned, amb.switches, amb.steps, amb.hash = 0, 0, 0, 0
 	amb.spin, amb.rrNext = 0, 0
 	amb.panics, amb.lastPan = 0, ""
@@ -424,4 +426,31 @@ func ambSettle() {
 	if amb.on && amb.cur == nil && curSim == nil {
 		ambQuiesce()
 	}
+}
+
+// ambBetweenCalls is called when a library call made by the harness goroutine
+// has returned: with a probability chosen per run (0, 0, 1/4 or 1/32) the
+// children that are still alive run until they end or block. "The background goroutine finishes between two API
+// calls" is the most likely timing in a real program and, for a goroutine that
+// a load left behind, the one that lets it meet the NEXT content of the
+// instance.
+func ambBetweenCalls() {
+	if !amb.on || len(amb.kids) == 0 || amb.cur != nil || curSim != nil || amb.quiescing || amb.killing {
+		return
+	}
+	if amb.pDrain == 0 || !amb.rng.Chance(amb.pDrain) {
+		return
+	}
+	base := amb.base
+	amb.base = nil // nobody's call: no budget is charged
+	amb.quiescing = true
+	for _, k := range append([]*Task{}, amb.kids...) {
+		amb.qsteps = 0
+		for tries := 0; tries < 100000 && !k.done && !k.blocked; tries++ {
+			ambRun(k)
+		}
+	}
+	amb.quiescing = false
+	amb.base = base
+	ambRefreshHook()
 }
